@@ -17,7 +17,7 @@ THEOREMS = [
     "c14_translated", "c14_poll_interval_documented", "c14_deadline", "c14_timeout_at_deadline", "c14_cancel_latency", "c14_cancelled_only_if_fired",
     "c14_one_cancel_notification", "c14_cancel_before_send_writes_no_request", "c14_progress_exact",
     "c14_consumed_is_before_completion", "c14_progress_token_filter", "c14_callback_failure_irrelevant",
-    "c14_shared_token", "c14_shared_token_starts", "c14_blocked_writer",
+    "c14_shared_token", "c14_shared_token_starts", "c14_blocked_writer", "c14_token_flag", "c14_token_callbacks",
 ]
 RULE = (
     "schedules: placements of {cancel, matching response, deadline} on the tick grid (1/1024 s) at poll boundaries +-1 tick, "
@@ -329,8 +329,104 @@ class SharedToken(Suite):
                 yield c
 
 
+class TokenOps(Suite):
+    """Operation sequences on a real CancellationToken (cancel / add_callback / is_cancelled),
+    callbacks that raise included, against Model/Token."""
+    name = "token-ops"
+
+    def cases(self, ctx, budget):
+        import itertools
+        out = []
+        alphabet = [["cancel"], ["query"], ["add", 0], ["add", 1]]
+        for n in range(0, 5 if budget == "quick" else 7):
+            for word in itertools.product(alphabet, repeat=n):
+                ops, k = [], 0
+                for o in word:
+                    if o[0] == "add":
+                        ops.append(["add", k])
+                        k += 1
+                    else:
+                        ops.append(list(o))
+                for raises in ([], [0], list(range(k))):
+                    if raises and not k:
+                        continue
+                    out.append({"ops": ops, "raises": raises})
+        rng = ctx.sub_rng("c14-token", budget)
+        for _ in range(300 if budget == "quick" else 20000):
+            n, k, ops = rng.randint(5, 14), 0, []
+            for _ in range(n):
+                r = rng.random()
+                if r < 0.25:
+                    ops.append(["cancel"])
+                elif r < 0.5:
+                    ops.append(["query"])
+                else:
+                    ops.append(["add", k])
+                    k += 1
+            out.append({"ops": ops, "raises": sorted(set(rng.randint(0, max(0, k)) for _ in range(rng.randint(0, 3))))})
+        return out
+
+    def impl(self, case):
+        from chuk_mcp.protocol.messages.send_message import CancellationToken
+        tok = CancellationToken()
+        raises = set(case["raises"])
+        outs = []
+        cur = []
+
+        def mk(i):
+            def cb():
+                cur.append(i)
+                if i in raises:
+                    raise RuntimeError(f"callback {i} (scripted)")
+            return cb
+
+        for op in case["ops"]:
+            cur.clear()
+            raised, answer = False, None
+            try:
+                if op[0] == "cancel":
+                    tok.cancel()
+                elif op[0] == "query":
+                    answer = bool(tok.is_cancelled)
+                else:
+                    tok.add_callback(mk(op[1]))
+            except Exception:  # noqa
+                raised = True
+            outs.append({"invoked": list(cur), "raised": raised, "answer": answer})
+        return {"cancelled": bool(tok.is_cancelled), "outs": outs}
+
+    def model_line(self, case):
+        return {"m": "await", "tokenOps": True, "ops": case["ops"], "raises": case["raises"]}
+
+    def compare(self, case, o, m):
+        return None if canon(o) == canon(m) else "differs"
+
+    def kind(self, case, o):
+        return f"token/{'cancelled' if o['cancelled'] else 'live'}/raising={bool(case['raises'])}/len{min(len(case['ops']), 6)}"
+
+    def nontrivial(self, case, o):
+        return len(case["ops"]) > 1
+
+    def oracle(self, case, o):
+        # what the property rests on: the flag is exactly "some cancel() happened so far", and
+        # cancel() never raises whatever the callbacks do
+        seen = False
+        for op, out in zip(case["ops"], o["outs"]):
+            if op[0] == "cancel":
+                seen = True
+                if out["raised"]:
+                    return ("token/cancel-raised", f"cancel() raised in {case['ops']} (raising callbacks {case['raises']})", None)
+            if op[0] == "query" and out["answer"] != seen:
+                return ("token/flag", f"is_cancelled answered {out['answer']} after {case['ops']}", {"answer": seen})
+        return None
+
+    def shrink_candidates(self, case):
+        for i in range(len(case["ops"])):
+            yield dict(case, ops=case["ops"][:i] + case["ops"][i + 1:])
+
+
 G_ALL = ["R", "R0", "Rx", "E", "E0", "Q", "O", "T", "N", "G", "Gp", "F", "B", "Oe"]
 
 
 def suites():
-    return [Schedules(), SharedToken()]
+    return [Schedules(), SharedToken(), TokenOps()]
